@@ -106,6 +106,24 @@ fn check_faithful_as(case: &str, k: usize, st: &Store, sers: &[(Handle, Result<S
                 let probe = if is_doc { root } else { root };
                 if is_doc { if representable(&st.xot, root).is_some() { continue; } }
                 else {
+                    // a subtree is written with the declarations it inherits: they belong to the domain too (a prefix other than
+                    // xml bound to the XML namespace, an undeclaration of a non-empty prefix ... cannot be written down)
+                    if subtree {
+                        let mut bad = false;
+                        let mut a = st.xot.parent(root);
+                        while let Some(n) = a {
+                            if st.xot.is_element(n) {
+                                for (p, ns) in st.xot.namespaces(n).iter() {
+                                    let ps = st.xot.prefix_str(p);
+                                    let us = st.xot.namespace_str(*ns);
+                                    if !ps.is_empty() && (us.is_empty() || !crate::rtrun::ncname(ps) || ps == "xmlns" || ps == "xml") { bad = true; }
+                                    if !us.chars().all(crate::tree::xml_char) || us == crate::spell::XML_NS { bad = true; }
+                                }
+                            }
+                            a = st.xot.parent(n);
+                        }
+                        if bad { stats.bump("c10.subtree_outside_domain"); continue; }
+                    }
                     // same character-level domain, checked on a throw-away document around a clone
                     let mut tmp = st.xot.clone();
                     let c = tmp.clone_node(root);
